@@ -129,6 +129,24 @@ def special_images(r):
             p = a
         if okk:
             out.append(("dag:shared-dir-depth-%d" % depth, m))
+    # inode table that ends inside a record: every inode kind stored last, its record cut 1..n bytes short
+    bt = base_trees()
+    for tname, tree in (("all-types", bt[0][1]), ("xattrs-ool", bt[3][1])):
+        tree = dict(tree)
+        if tname == "all-types":
+            tree[b"d/xs"] = Node("slink", 0o777, target=b"../somewhere", xattrs={b"user.l": b"1"})
+            tree[b"d/xc"] = Node("cdev", 0o600, dev=(4, 5), xattrs={b"user.c": b"1"})
+            tree[b"d/xp"] = Node("fifo", 0o600, xattrs={b"user.p": b"1"})
+            tree[b"d/xd"] = Node("dir", 0o700, xattrs={b"user.d": b"1"})
+        for q in sorted(tree):
+            if tree[q].link_to is not None or (tname == "xattrs-ool" and q not in (b"xl", b"xd", b"x00")):
+                continue
+            for k in (1, 2, 3, 4, 5, 8, 12, 16, 17, 24, 33):
+                try:
+                    img, fmap, info = sqfsimg.build_image(tree, last_inode=q, cut_inode_tail=k)
+                except Exception:
+                    continue
+                out.append(("inode-table-ends-inside-record:%s:%s:-%d" % (tree[q].type, "ext" if tree[q].xattrs else "basic", k), img))
     # truncation at structure boundaries and random offsets
     t0 = base_trees()[0][1]
     img, fmap, info = sqfsimg.build_image(t0)
